@@ -630,6 +630,7 @@ pub fn run_threads(w: &mut World, spec: &ThreadSpec) {
                 crate::clock::touch_tls();
                 crate::payloads::touch_tls();
                 crate::ffiyield::touch_tls();
+                crate::envseam::touch_tls();
                 rngsvc::touch_tls();
                 if let Some(k) = keys.as_ref() {
                     let probe = ExitProbe { bk, keys: k.clone(), t, seed, out: exit_out };
